@@ -22,6 +22,7 @@ theorem inv_step (c : Cfg) (s : State) (a : Act) (s' : State) (hi : Inv c s) (hs
   case nset => exact inv_step_nset c s s' f hi hs
   case bacq => exact inv_step_bacq c s s' f hi hs
   case inc => exact inv_step_inc c s s' f hi hs
+  case ncmp => exact inv_step_ncmp c s s' f hi hs
   case get => exact inv_step_get c s s' f hi hs
   case brel => exact inv_step_brel c s s' f hi hs
   case recv => exact inv_step_recv c s s' f hi hs
